@@ -42,6 +42,15 @@ Theorem C20_backends_agree : forall (raw_prefix : str) (F : bucket) (ops : list 
 Proof. exact backends_agree. Qed.
 Print Assumptions C20_backends_agree.
 
+(* the table-absolute spelling of a key ("/data/x", as manifests spell data files) names the same key in
+   both backends, for every operation and any number of leading slashes *)
+Theorem C20_leading_slash_same : forall (pfx : str) (b : bucket) (s : lstate) (n : nat) (o : op key),
+  Forall wf_seg (op_segs o) ->
+  s3_step pfx b (map_op (abs_join n) o) = s3_step pfx b (map_op join o)
+  /\ local_step_str s (map_op (abs_join n) o) = local_step_str s (map_op join o).
+Proof. exact leading_slash_same. Qed.
+Print Assumptions C20_leading_slash_same.
+
 (* ------------------------------------------------------------------ range reader *)
 Theorem C20_range_equiv : forall (A : Type) (content : list A) (prog : list rop), Forall wf_rop prog ->
   let '(obs, final, ranges) := run_rf content 0 prog in
